@@ -222,10 +222,12 @@ Proof. split; [split; vm_compute; [lia | reflexivity] | vm_compute; reflexivity]
 (* ------------------------------------------------------------------ sites *)
 (* the repaired path is always below the output package (which is why the repair can produce names of modules
    that do not exist — finding F01f of C01 — but never a foreign import) *)
-Lemma repair_under : forall pkg m, repairs pkg m = true -> under pkg (repair pkg m) = true.
+Lemma repair_under : forall stdlib pkg core m,
+  repairs stdlib pkg core m = true -> under pkg (repair stdlib pkg core m) = true.
 Proof.
-  intros pkg m H. unfold repair. rewrite H.
-  unfold repairs in H. destruct pkg as [|x [|y sfx]]; try discriminate.
+  intros stdlib pkg core m H. unfold repair. rewrite H.
+  unfold repairs in H. repeat (apply andb_true_iff in H; destruct H as [H _]).
+  unfold repairs0 in H. destruct pkg as [|x [|y sfx]]; try discriminate.
   simpl tl in H. apply andb_true_iff in H. destruct H as [H _].
   apply prefix_parts_spec in H. destruct H as [t ->].
   change (x :: (y :: sfx) ++ t) with ((x :: y :: sfx) ++ t).
@@ -233,13 +235,13 @@ Proof.
 Qed.
 
 Lemma registered_allowed : forall stdlib pkg core i,
-  allowed stdlib pkg core i = true -> allowed stdlib pkg core (registered pkg i) = true.
+  allowed stdlib pkg core i = true -> allowed stdlib pkg core (registered stdlib pkg core i) = true.
 Proof.
   intros stdlib pkg core [l p] H. unfold registered. simpl.
   destruct l as [|l]; [|exact H].
   unfold allowed, abs_allowed in *. simpl in *.
-  destruct (repairs pkg p) eqn:E.
-  - rewrite (repair_under pkg p E). rewrite orb_true_r. reflexivity.
+  destruct (repairs stdlib pkg core p) eqn:E.
+  - rewrite (repair_under stdlib pkg core p E). rewrite orb_true_r. reflexivity.
   - unfold repair. rewrite E. exact H.
 Qed.
 
